@@ -88,6 +88,7 @@ ASSUMPTIONS = [
 ALPHA = ['a', 'b', ' ', 'é', '日']
 XALPHA = ['a', 'b', 'A', 'B', ' ', ' ', 'é', 'É', '日', '1', '0', '.']
 TRIM_ALPHA = ['a', ' ', 'É']             # TRIM / UPPER / LOWER additionally over every string of length 4..5
+OTHER_WS_ALPHA = ['a', ' ', '\t', '\n', '\xa0', '\u3000', '\u2003']
 POS = list(range(-1, 11))
 TS = ['', 'X', 'é日']                 # replacement texts
 TS_MIXED = ['X', 3.0, True, 0.5]
@@ -103,14 +104,14 @@ STRICT_LEN_OF_NUMBERS = False     # True: LEN(number) must be exactly the length
 # the shard count or the load); the values are ~85 % of what that part produces on the unchanged tree
 FLOORS = {
     'quick': {
-        'law:slice': 5400, 'law:mid': 42000, 'law:find': 68000, 'law:sub': 83000, 'law:case': 560,
+        'law:slice': 5400, 'law:mid': 42000, 'law:find': 68000, 'law:sub': 83000, 'law:case': 2500,
         'law:exact': 1380, 'law:concat': 3600, 'law:text': 470000, 'law:error': 290,
         'identity:left&mid': 5000, 'identity:replace': 32000,
         'FIND:found': 6800, 'FIND:not-found': 62000, 'FIND:start<1': 10000, 'FIND:start>len': 34000,
         'FIND:match-after-start': 3400, 'FIND:several-matches': 760,
         'SUB:all': 11500, 'SUB:all-several-occurrences': 260, 'SUB:ith-replaced': 2400, 'SUB:ith-of-several': 540,
         'SUB:ith-beyond-count': 49000,
-        'TRIM:input-with-outer-space': 200, 'TRIM:input-with-inner-run': 27, 'UPPER:changed': 360,
+        'TRIM:input-with-outer-space': 200, 'TRIM:input-with-inner-run': 27, 'TRIM:other-white-space': 2000, 'UPPER:changed': 360,
         'LOWER:changed': 250, 'EXACT:true': 290, 'EXACT:case-only-difference': 240,
         'TEXT:tie': 6300, 'TEXT:grouped-with-separator': 43000, 'TEXT:percent': 235000, 'TEXT:negative': 230000,
         'TEXT:optional-digits': 176000,
@@ -119,14 +120,14 @@ FLOORS = {
         'eval_ties': 9000,
     },
     'thorough': {
-        'law:slice': 11800, 'law:mid': 118000, 'law:find': 282000, 'law:sub': 400000, 'law:case': 1100,
+        'law:slice': 11800, 'law:mid': 118000, 'law:find': 282000, 'law:sub': 400000, 'law:case': 3000,
         'law:exact': 6600, 'law:concat': 10500, 'law:text': 2160000, 'law:error': 290,
         'identity:left&mid': 10800, 'identity:replace': 90000,
         'FIND:found': 23000, 'FIND:not-found': 259000, 'FIND:start<1': 43000, 'FIND:start>len': 133000,
         'FIND:match-after-start': 9100, 'FIND:several-matches': 2900,
         'SUB:all': 51000, 'SUB:all-several-occurrences': 1750, 'SUB:ith-replaced': 12500, 'SUB:ith-of-several': 3700,
         'SUB:ith-beyond-count': 238000,
-        'TRIM:input-with-outer-space': 390, 'TRIM:input-with-inner-run': 40, 'UPPER:changed': 880,
+        'TRIM:input-with-outer-space': 390, 'TRIM:input-with-inner-run': 40, 'TRIM:other-white-space': 2000, 'UPPER:changed': 880,
         'LOWER:changed': 250, 'EXACT:true': 820, 'EXACT:case-only-difference': 1350,
         'TEXT:tie': 30000, 'TEXT:grouped-with-separator': 223000, 'TEXT:percent': 1080000,
         'TEXT:negative': 1069000, 'TEXT:optional-digits': 811000,
@@ -860,6 +861,13 @@ def run(ctx):
     for s in strings(TRIM_ALPHA, 5, 4):
         i += 1
         if ctx.mine(i):
+            law_case(ctx, s)
+    # white space other than U+0020 is an ordinary character for TRIM (tab, line feed, no-break space, ideographic
+    # space, em space): every string up to length 4 that holds one of them
+    for s in strings(OTHER_WS_ALPHA, 4, 1):
+        i += 1
+        if ctx.mine(i) and any(c in s for c in OTHER_WS_ALPHA[2:]):
+            ctx.count('TRIM:other-white-space')
             law_case(ctx, s)
     for v in numbers() + [True, False, None]:
         i += 1
